@@ -80,6 +80,34 @@ def install():
     _install_getitem(ser)
     _install_product(ser)
     _install_solvers(bd, la)
+    _install_kpm_bounds(bd)
+
+
+# ---- kpm.rescale: the documented contract of `lower_bounds` ---------------------------------------
+def _install_kpm_bounds(bd):
+    """`lower_bounds`: "energy interval to definitely include within the [-1, 1] rescaled energies" - the KPM solver
+    passes the explicit energies there; an energy outside (-1, 1) makes the Chebyshev expansion meaningless (nan)."""
+    import pymablock.kpm as kpm
+
+    orig = kpm.rescale
+
+    def rescale(hamiltonian, *args, **kwargs):
+        out = orig(hamiltonian, *args, **kwargs)
+        lb = kwargs.get("lower_bounds", args[2] if len(args) > 2 else None)
+        if lb is not None:
+            COUNTERS["kpm_rescale_with_bounds"] += 1
+            try:
+                a, b = out[1]
+                x = (np.asarray(lb, dtype=float) - b) / a
+                if not np.all(np.abs(x) < 1.0):
+                    violation("kpm_bounds", f"kpm.rescale: the interval lower_bounds={list(map(float, lb))} is mapped to {x.tolist()}, outside (-1, 1)")
+            except Exception as e:  # noqa: BLE001
+                COUNTERS["kpm_rescale_monitor_error"] += 1
+        return out
+
+    kpm.rescale = rescale
+    if getattr(bd, "rescale", None) is orig:
+        bd.rescale = rescale
 
 
 # ---- warnings ------------------------------------------------------------------------------
